@@ -342,6 +342,66 @@ func cmdCheck(args []string) int {
 			}
 			ue.Checks["C12.same-output-under-every-map-order"] = map[string]int{"paths-compared": len(pool.Results), "classes": len(first)}
 		}
+		// native twins: sampled passing paths, concretised from a model of their path condition,
+		// re-run natively (real generator, real emitted code, real libraries); every check
+		// must hold natively too -- engine fidelity validation on every run (DESIGN §3.6)
+		if nt := envInt("GOSYM_TWINS", map[string]int{"quick": 3, "thorough": 8}[tier]); nt > 0 && !u.SameEmits {
+			var cand []*interp.PathResult
+			for _, r := range pool.Results {
+				if r.Outcome != "ok" || len(r.Checks) == 0 {
+					continue
+				}
+				clean := true
+				for _, c := range r.Checks {
+					if c.Status != "pass" {
+						clean = false
+					}
+				}
+				if clean {
+					cand = append(cand, r)
+				}
+			}
+			var twins []*Replay
+			for j := 0; j < nt && len(cand) > 0; j++ {
+				r := cand[(seed*7919+j*(len(cand)/nt+1))%len(cand)]
+				mdl, err := interp.SolveModel(os.Getenv("GOSYM_SOLVER"), r.Decls, r.PC, r.Evals)
+				if err != nil {
+					continue
+				}
+				r.PCModel = mdl
+				rp, err := makeReplay(m, id, u, r, -1)
+				if err != nil {
+					continue
+				}
+				rp.Check = "twin"
+				rp.Params = params
+				dup := false
+				for _, t := range twins {
+					if t.Dir == rp.Dir {
+						dup = true
+					}
+				}
+				if !dup {
+					twins = append(twins, rp)
+				}
+			}
+			if len(twins) > 0 {
+				results := runReplaysFull(twins)
+				for j, res := range results {
+					ev.TwinsRun++
+					switch {
+					case res.AllOK():
+						ev.TwinsAgree++
+						_ = os.RemoveAll(twins[j].Dir)
+					case res.Assume:
+						// the model did not satisfy a harness assumption natively: inconclusive twin
+						ue.uncovered("native twin: a harness assumption failed natively for a model of the path condition (" + twins[j].Dir + ")")
+					default:
+						ue.uncovered("ENGINE-FIDELITY: native twin disagrees with the symbolic path (" + twins[j].Dir + "): " + lastLines(res.Output+res.Detail, 4))
+					}
+				}
+			}
+		}
 		if pool.Dropped > 0 {
 			ue.uncovered(fmt.Sprintf("path budget reached: %d queued prefixes not explored", pool.Dropped))
 		}
